@@ -495,4 +495,14 @@ def analyzeFigure (le : Cmp) (allTexts : Bool) (p : LAParams) (bb : BB) (items :
   if allTexts then analyze le p bb items
   else { children := items.map Item.toChild, groups := none, flags := {} }
 
+/-! ### separation of the group hierarchy (C09, column order) -/
+
+/-- All leaves of `l` lie above all leaves of `r` (they may touch). -/
+def Node.aboveB (l r : Node) : Bool := l.leaves.all fun a => r.leaves.all fun b => decide (b.bb.y1 ≤ a.bb.y0)
+
+/-- Every group joins two vertically separated runs of boxes. -/
+def Node.separatedB : Node → Bool
+  | .leaf _ => true
+  | .grp _ _ l r => (l.aboveB r || r.aboveB l) && l.separatedB && r.separatedB
+
 end PdfVerif.Layout
